@@ -193,6 +193,57 @@ def _is_mutable_container(v: ast.expr) -> bool:
     return False
 
 
+PURE_READERS = {'get', 'items', 'keys', 'values', 'copy', 'index', 'count', 'isdisjoint', 'issubset', 'issuperset', 'union',
+                'intersection', 'difference'}
+PURE_CONSUMERS = {'len', 'sorted', 'set', 'list', 'dict', 'tuple', 'frozenset', 'any', 'all', 'enumerate', 'iter', 'min', 'max', 'sum',
+                  'reversed', 'zip', 'bool', 'repr', 'str'}
+
+
+def _is_read_only_table(a, m, name: str) -> bool:
+    """the module-level container NAME is never stored into, mutated, rebound, aliased, passed on or returned anywhere in
+    the package: every use is a lookup, a membership test, an iteration or a pure consumer -> a constant table"""
+    if name.startswith('__') and not name.endswith('__'):
+        users = [x for x in a.p.modules.values() if x is m]
+    else:
+        users = list(a.p.modules.values())
+    if name in (m.all_names or []):
+        return False
+    n_uses = 0
+    for um in users:
+        if um is not m and a.p.resolve(um.name, name) != f'{m.name}.{name}':
+            # attribute access through the module object (mod.NAME) is treated as an escape below
+            pass
+        pm = {}
+        for n in ast.walk(um.tree):
+            for c in ast.iter_child_nodes(n):
+                pm[id(c)] = n
+        for n in ast.walk(um.tree):
+            is_use = (isinstance(n, ast.Name) and n.id == name and a.p.resolve(um.name, name) == f'{m.name}.{name}') or (
+                isinstance(n, ast.Attribute) and n.attr == name and not (isinstance(n.value, ast.Name) and n.value.id == 'self'))
+            if not is_use:
+                continue
+            par = pm.get(id(n))
+            if isinstance(n.ctx, ast.Store) and um is m and isinstance(par, (ast.Assign, ast.AnnAssign)) and pm.get(id(par)) is um.tree:
+                continue  # the defining module-level assignment
+            if not isinstance(n.ctx, ast.Load):
+                return False
+            n_uses += 1
+            if isinstance(par, ast.Subscript) and par.value is n and isinstance(par.ctx, ast.Load):
+                continue
+            if isinstance(par, ast.Attribute) and par.value is n and par.attr in PURE_READERS:
+                gp = pm.get(id(par))
+                if isinstance(gp, ast.Call) and gp.func is par:
+                    continue
+            if isinstance(par, ast.Compare) and n in par.comparators and all(isinstance(o, (ast.In, ast.NotIn)) for o in par.ops):
+                continue
+            if isinstance(par, (ast.For, ast.comprehension)) and par.iter is n:
+                continue
+            if isinstance(par, ast.Call) and n in par.args and isinstance(par.func, ast.Name) and par.func.id in PURE_CONSUMERS:
+                continue
+            return False
+    return True
+
+
 def r3_inventory(a, tier):
     rep = RuleReport(
         'C10.R3',
@@ -212,8 +263,9 @@ def r3_inventory(a, tier):
             found[f'{m.name}.{name}'] = m
     for q, m in sorted(found.items()):
         known = INVENTORY.get(q)
-        rep.add({'module_container': q, 'reviewed': known is not None})
-        if known is None:
+        const = known is None and _is_read_only_table(a, m, q.rpartition('.')[2])
+        rep.add({'module_container': q, 'reviewed': known is not None, 'derived_constant_table': const})
+        if known is None and not const:
             rep.fail(q, 'unreviewed-container', f'module-level mutable container {q} is not in the reviewed inventory: state shared by '
                      f'all calls in the process', f'{m.relpath}')
     # writers
